@@ -38,4 +38,15 @@ func init() {
 	ar.Subst = map[string]string{"t.GetId()": "tid", "taskRes.Status": "status", "Success": "ShellOp.Queue.Status.success",
 		"taskRes.AfterTasks": "afterTasks", "taskRes.HeadTasks": "headTasks", "taskRes.TailTasks": "tailTasks"}
 	transTargets = append(transTargets, ar)
+	// C07: the group-compaction index loop, in combineBindingContextForHook and in its exported twin
+	for _, tw := range [][3]string{
+		{"pkg/shell-operator/combine_binding_context.go", "combineBindingContextForHook", "compactInt"},
+		{"pkg/shell-operator/operator.go", "CombineBindingContextForHook", "compactTwin"}} {
+		transTargets = append(transTargets, transTarget{File: tw[0], Recv: "ShellOperator", Func: tw[1], Lean: tw[2],
+			Block: "def:compactedContext", Pure: true, Result: "compactedContext", Ret: "List ShellOp.Combine.Ctx",
+			ExtraParams: []string{"(combinedContext : List ShellOp.Combine.Ctx)"},
+			Nil:         "(default : ShellOp.Combine.Ctx)",
+			Fields:      map[string]string{".Metadata.Group": "group"},
+			Literals:    map[string]string{`""`: "(0 : Nat)"}})
+	}
 }
